@@ -87,6 +87,7 @@ Inductive dop :=
 | DNotify (w : wmsg)
 | DMergeRemote (w : wmsg)
 | DLocalState (parts : list (string * list (option entry)))   (* observed LocalState output, decoded; sil parts carry [] *)
+              (sils : list (string * list (string * Z)))      (* its silence parts: (id, UpdatedAt) of every item shipped *)
 | DLog (key recv gkey : string) (firing resolved : list Z) (expiry : Z)
 | DSilLocal (key : string) (v : list (string * Z))            (* a local silence Set/Expire happened: view afterwards (oracle) *)
 | DTick.
@@ -120,12 +121,20 @@ Definition init_peer (regs : list (string * bool)) : gmap string gstate :=
 
 Definition res_or {A} (r : res A) (d : A) : A * bool := match r with Ok a => (a, true) | _ => (d, false) end.
 
-Definition local_state_ok (parts : list (string * list (option entry))) (p : gmap string gstate) : bool :=
+Definition sil_row_eqb (a b : string * Z) : bool := String.eqb (fst a) (fst b) && (snd a =? snd b).
+(* the shipped full state is the CURRENT state: every nflog part is the model's log (any order), every silence part
+   carries exactly the current (id, UpdatedAt) of the store *)
+Definition local_state_ok (parts : list (string * list (option entry))) (sils : list (string * list (string * Z)))
+           (p : gmap string gstate) : bool :=
   perm_eqb String.eqb (map fst parts) (map fst (map_to_list p)) &&
   forallb (fun '(k, batch) =>
              match p !! k with
              | Some (SNfl st) => perm_eqb beq batch (map (fun kv => Some (snd kv)) (map_to_list st))
-             | Some (SSil _) => true
+             | Some (SSil v) =>
+                 match find (fun kr => String.eqb (fst kr) k) sils with
+                 | Some (_, rows) => perm_eqb sil_row_eqb rows v
+                 | None => false
+                 end
              | None => false
              end) parts.
 
@@ -133,7 +142,7 @@ Definition dstep (ret : Z) (now : Z) (o : dop) (p : gmap string gstate) : gmap s
   match o with
   | DNotify w => res_or (notify_msg wire_dec ops_inst now w p) p
   | DMergeRemote w => res_or (merge_remote_state wire_dec ops_inst now w p) p
-  | DLocalState parts => (p, local_state_ok parts p)
+  | DLocalState parts sils => (p, local_state_ok parts sils p)
   | DLog key recv gkey f r x =>
       match p !! key with
       | Some (SNfl st) => (<[key := SNfl (fst (step ret st now (OLog recv gkey f r [] x)))]> p, true)
